@@ -79,6 +79,15 @@ impl Tok {
     fn to_lowercase(&self) -> (r: Tok)
         ensures r == self.lower(), r.empty() == self.empty(),
     { unimplemented!() }
+    /// `s.as_bytes()[i]` (not used by the code today; present so that an edit validating names byte-wise is judged):
+    /// indexing PANICS past the end -- in particular `[0]` on the empty token the parser returns at end of input
+    #[verifier::external_body]
+    fn byte_at(&self, i: usize) -> (r: u8)
+        requires !self.empty(), i == 0,
+    { unimplemented!() }
+    /// `s.bytes().any(..)` / `s.chars().all(..)` with some predicate: nothing known about the answer
+    #[verifier::external_body]
+    fn any_char_unknown(&self) -> (b: bool) { unimplemented!() }
     /// `!s.chars().next().unwrap_or(' ').is_alphabetic() || s.chars().any(|c| !c.is_alphanumeric())`
     /// (the empty string is a bad identifier: ' ' is not alphabetic; unwrap_or cannot panic)
     #[verifier::external_body]
@@ -224,13 +233,20 @@ pub open spec fn n_values(ft: FieldType) -> int {
     }
 }
 
+/// `u8::is_ascii_alphabetic` and friends: nothing known about the answer
+#[verifier::external_body]
+fn u8_class(b: u8) -> (r: bool) { unimplemented!() }
+
 impl DeclareName {
 //@extract method bigtools/src/bed/autosql.rs parse "impl DeclareName"
 //@rule R16
 //@rule R6
 //@rule R8
 //@sub /parser::Parser<'_>/ => VParser
-//@sub /!declare_name\.chars\(\)\.next\(\)\.unwrap_or\(' '\)\.is_alphabetic\(\)\s*\|\| declare_name\.chars\(\)\.any\(\|c\| !c\.is_alphanumeric\(\)\)/ => declare_name.bad_ident()
+//@sub /!declare_name\.chars\(\)\.next\(\)\.unwrap_or\(' '\)\.is_alphabetic\(\)\s*\|\| declare_name\.chars\(\)\.any\(\|c\| !c\.is_alphanumeric\(\)\)/ => declare_name.bad_ident() min=0
+//@sub /(\w+)\.as_bytes\(\)\[(\d+)\]\.is_ascii_\w+\(\)/ => u8_class(\1.byte_at(\2)) min=0
+//@sub /(\w+)\.as_bytes\(\)\[(\d+)\]/ => \1.byte_at(\2) min=0
+//@sub /\.(?:bytes|chars)\(\)\.(?:any|all)\(\|\w+\| (?:[^()]|\([^()]*\))*\)/ => .any_char_unknown() min=0
 //@sub /match next_word \{/ => match next_word.kind() {
 //@sub /"(\w+)" =>/ => Lit::W_\1 =>
 //@sub / == "(\w+)"/ => .eq_lit(Lit::W_\1)
